@@ -383,7 +383,37 @@ def source_domain(ctx, nat, ref, M, fn_b):
 # =====================================================================================================================
 # B: bounded stand-ins
 # =====================================================================================================================
+def fresh_results_standin(ctx):
+    """Results depend only on (seed, dimension): a caller modifying a returned array in place must not change what later calls return."""
+    import ast as _ast
+    from pyvc import source as _src
+    from chmpy.sampling import quasirandom
+    f = ctx.fn("chmpy.sampling", "quasirandom")
+    decos = [_ast.unparse(d) for d in f.node.decorator_list]
+    ctx.pattern("sampling.quasirandom/no_result_cache", not any("cache" in d for d in decos), clause="the front end is not memoised (a cached mutable array would be shared between callers)",
+                detail=decos, fn=f, fallback=lambda: None)
+    fails, evals = [], 0
+    for method in ("sobol", "kgf"):
+        for args in ((64, 3), (1, 5), (17,)):
+            kw = {"method": method, "seed": 7}
+            a = np.array(quasirandom(*args, **kw), dtype=float, copy=True)
+            first = quasirandom(*args, **kw)
+            try:
+                first *= 2.0
+                first -= 1.0
+            except (TypeError, ValueError):
+                pass
+            again = np.asarray(quasirandom(*args, **kw), dtype=float)
+            evals += 1
+            if again.shape != a.shape or not np.array_equal(again, a):
+                fails.append({"input": {"args": list(args), "method": method, "seed": 7, "history": "call, rescale the returned array in place, call again"},
+                              "observed": {"second_call_min": float(np.min(again)), "second_call_max": float(np.max(again)), "equal_to_first_call": False},
+                              "clause": "results depend only on (seed, dimension): an earlier caller's in-place edit of its result does not change later results", "key": "result-aliasing"})
+    ctx.add_bounded("sampling.quasirandom/bounded/results_not_shared", "sobol and kgf, three argument shapes; call, modify the result in place, call again", evals, evals, fails[:3], rule="calls")
+
+
 def bounded_checks(ctx, nat, rng, quick, have_s, have_l):
+    fresh_results_standin(ctx)
     front = nat.front
     # ---- (1) extracted source text vs compiled binary (ties the proofs about the text to the binary that runs)
     fails, n_eval, distinct = [], 0, set()
